@@ -2,7 +2,7 @@
    for the trace conformance check of C09 / C10.  ExtrOcamlBasic only. *)
 From Coq Require Import ExtrOcamlBasic List NArith.
 From Coq.Strings Require Import Byte.
-From GM Require Import Codec.Packet Session.Ids Session.Store Client.Future Client.Client.
+From GM Require Import Codec.Packet Session.Ids Session.Store Client.Future Client.Client Client.TraceScan.
 Extraction Language OCaml.
 Separate Extraction
   Datatypes.length
@@ -10,4 +10,5 @@ Separate Extraction
   Packet.packet_eqb Packet.get_id Packet.type_code Packet.type_of_code Packet.ptype_of
   Client.step Client.init Client.owed_unanswered Client.delivered_twice Client.quiescent
   Client.pending_futures Client.ended Client.store_before_send_ok Client.truthful_ok
-  Future.session_present Future.return_code Future.return_codes.
+  Future.session_present Future.return_code Future.return_codes
+  TraceScan.scan_sbs TraceScan.scan_pubrec TraceScan.unresolved.
